@@ -196,6 +196,10 @@ func (reader *H264Reader) NextNAL() (*NAL, error) {
 	nal := newNal(reader.nalBuffer)
 	reader.nalBuffer = nil
 	nal.parseHeader()
+	// the stream ended inside this unit: it was not checked in the loop above
+	if !reader.includeSEI && nal.UnitType == NalUnitTypeSEI {
+		return nil, io.EOF
+	}
 
 	return nal, nil
 }
